@@ -14,6 +14,7 @@ import (
 	"net/http/httptest"
 	"net/url"
 	"os"
+	"runtime/debug"
 	"sort"
 	"strings"
 	"time"
@@ -92,6 +93,7 @@ type Result struct {
 	ClockBegin int64 // virtual clock when the request began / ended (scheduler runs only)
 	ClockEnd   int64
 	Panic      string
+	PanicStack string `json:"-"`
 	Blocked    string // non-empty: the request never completed (what it waits for); Status is 0 then
 }
 
@@ -391,6 +393,7 @@ func (e *Env) do(r Req) *Result {
 		defer func() {
 			if p := recover(); p != nil {
 				res.Panic = fmt.Sprint(p)
+				res.PanicStack = string(debug.Stack())
 			}
 		}()
 		el.ServeHTTP(rec, req)
